@@ -247,6 +247,46 @@ def model_gen(suite, seed, n, extra=()):
     return [l for l in p.stdout.split("\n") if l]
 
 
+CASE_LIMIT_S = 120   # a single case (on real sockets: a query that waits for ever) gets this long, then the worker is killed
+
+
+class _Watched:
+    def __init__(self):
+        self.returncode, self.stdout, self.stderr, self.stalled = None, "", "", False
+
+
+def _run_watched(cmd, text_in, progress_file):
+    """run the worker; kill it when the case it is on (last `B <id>` line of the progress file) has not ended within
+    CASE_LIMIT_S seconds — the caller reports that case as HANG and runs the rest in a new worker"""
+    import threading, time
+    res = _Watched()
+    proc = subprocess.Popen(cmd, stdin=subprocess.PIPE, stdout=subprocess.PIPE, stderr=subprocess.PIPE, text=True)
+
+    def pump():
+        try:
+            res.stdout, res.stderr = proc.communicate(text_in)
+        except Exception as e:  # noqa: BLE001
+            res.stderr = str(e)
+
+    t = threading.Thread(target=pump, daemon=True)
+    t.start()
+    while t.is_alive():
+        t.join(2.0)
+        if not t.is_alive():
+            break
+        try:
+            age = time.time() - os.path.getmtime(progress_file)
+        except OSError:
+            continue
+        if age > CASE_LIMIT_S:
+            res.stalled = True
+            proc.kill()
+            t.join(10)
+            break
+    res.returncode = proc.returncode if proc.returncode is not None else -9
+    return res
+
+
 def run_impl(lines, tag="h"):
     """Run the real code on the case lines. Survives aborts: the case that killed the worker is
     reported as `ABORT` and the rest are re-run in a new worker.
@@ -258,8 +298,7 @@ def run_impl(lines, tag="h"):
         rounds += 1
         prog = os.path.join(WORK, f"progress_{tag}_{os.getpid()}")
         plog = os.path.join(WORK, f"panics_{tag}_{os.getpid()}")
-        p = subprocess.run([GDHARNESS, "run", "--progress", prog, "--panic-log", plog],
-                           input="\n".join(todo) + "\n", stdout=subprocess.PIPE, stderr=subprocess.PIPE, text=True)
+        p = _run_watched([GDHARNESS, "run", "--progress", prog, "--panic-log", plog], "\n".join(todo) + "\n", prog)
         got = {}
         for l in p.stdout.split("\n"):
             if l:
@@ -281,8 +320,9 @@ def run_impl(lines, tag="h"):
             if not rest_ids:
                 break
             culprit = rest_ids[0]
-        out[culprit] = "ABORT"
-        panics[culprit] = f"worker exited with status {p.returncode}: {p.stderr[-300:].strip()}"
+        out[culprit] = "HANG" if p.stalled else "ABORT"
+        panics[culprit] = (f"the case did not end within {CASE_LIMIT_S} s (worker killed)" if p.stalled
+                           else f"worker exited with status {p.returncode}: {p.stderr[-300:].strip()}")
         k = ids.index(culprit)
         todo = [l for l in todo[k + 1:]]
         if rounds > 200:
